@@ -34,6 +34,7 @@ class Engine:
         self.classes = dict(classes or {})  # class name -> ClassInfo
         self.solver = z3.Solver()
         self.solver.set("timeout", feas_timeout_ms)
+        self.solver.set("smt.mbqi", False)  # feasibility pruning only needs 'unsat'; never search models of quantified axioms
         self.axioms = []  # global axioms (UF properties) added to every query
         self.assumptions_used = set()  # names of external contracts used
         self.loop_specs = {}
@@ -398,6 +399,9 @@ class Engine:
 
     def ev_Call(self, node, st):
         outs = []
+        if (isinstance(node.func, ast.Name) and node.func.id in ("all", "any") and len(node.args) == 1 and not node.keywords
+                and isinstance(node.args[0], (ast.GeneratorExp, ast.ListComp)) and node.func.id not in st.env):
+            return self.ev_quantified(node.func.id == "all", node.args[0], st)
         # method call on an object: evaluate receiver once
         if any(isinstance(a, ast.Starred) for a in node.args):
             raise Unsupported("*args call")
@@ -424,6 +428,78 @@ class Engine:
             args = vals[1 : 1 + len(node.args)]
             kwargs, extra = self._kwargs(s, kwnames, vals[1 + len(node.args):])
             outs.extend(self.call(s, f, args, kwargs, self.origin(node), extra))
+        return outs
+
+    def ev_quantified(self, is_all, gen, st):
+        """all(P(x) for x in it [if C(x)]) / any(...): a conjunction for concrete-length iterables,
+        a quantified formula (bound index, explicit array-read triggers) for symbolic ranges / array strings."""
+        from . import astr
+        from .loops import SymRange
+        from .builtins_model import iter_items
+
+        if len(gen.generators) != 1 or gen.generators[0].is_async:
+            raise Unsupported("comprehension with several for-clauses")
+        g = gen.generators[0]
+        outs = []
+        for s, it in self.ev(g.iter, st):
+            if isinstance(it, Raise):
+                outs.append((s, it))
+                continue
+
+            def body_at(x, s=s, rng=None):
+                """-> z3 Bool of (all ifs hold, element predicate holds) at element x"""
+                s0 = s.fork()
+                if rng is not None:
+                    s0.assume(rng)
+                base = len(s0.pc)
+                s0.frames[-1] = dict(s0.frames[-1])
+                conds, terms = [], []
+                for o in self.assign(s0, g.target, x):
+                    if o.kind != "normal":
+                        continue
+                    work = [(o.st, [])]
+                    for cnd in g.ifs:
+                        nxt = []
+                        for s1, cs in work:
+                            for s2, c in self.ev(cnd, s1):
+                                if isinstance(c, Raise):
+                                    continue
+                                t = truth(s2, c)
+                                nxt.append((s2, cs + [z3.BoolVal(t) if isinstance(t, bool) else t]))
+                        work = nxt
+                    for s1, cs in work:
+                        for s2, v in self.ev(gen.elt, s1):
+                            delta = s2.pc[base:]
+                            if isinstance(v, Raise):
+                                t = z3.BoolVal(False)
+                            else:
+                                t = truth(s2, v)
+                                t = z3.BoolVal(t) if isinstance(t, bool) else t
+                            guard = z3.And(*(delta + cs)) if (delta or cs) else z3.BoolVal(True)
+                            terms.append((guard, t))
+                if is_all:
+                    return z3.And(*[z3.Implies(gd, t) for gd, t in terms]) if terms else z3.BoolVal(True)
+                return z3.Or(*[z3.And(gd, t) for gd, t in terms]) if terms else z3.BoolVal(False)
+
+            items = None if isinstance(it, (SymRange, astr.VAStr)) else iter_items(self, s, it)
+            if items is not None:
+                parts = [body_at(x) for x in items]
+                r = (z3.And(*parts) if is_all else z3.Or(*parts)) if parts else z3.BoolVal(is_all)
+                outs.append((s, vbool(r)))
+                continue
+            i = z3.Const(f"q!{next(astr._ctr)}", z3.IntSort())
+            if isinstance(it, SymRange):
+                lo, hi, x = it.lo, it.hi, VInt(i)
+            elif isinstance(it, astr.VAStr):
+                lo, hi, x = z3.IntVal(0), it.n, astr.VChr(it.a[i])
+            else:
+                raise Unsupported(f"quantification over {it!r}")
+            rng = z3.And(i >= lo, i < hi)
+            b = body_at(x, rng=rng)
+            pats = _select_patterns(b, i)
+            kw = {"patterns": pats} if pats else {}
+            q = z3.ForAll([i], z3.Implies(rng, b), **kw) if is_all else z3.Exists([i], z3.And(rng, b), **kw)
+            outs.append((s, VBool(q)))
         return outs
 
     def _kwargs(self, st, names, vals):
@@ -889,6 +965,35 @@ class Engine:
             for k in range(0, 5):
                 st.assume(z3.Implies(kb == k, r == z3.StringVal(a.py * k)))
         return VStr(r)
+
+
+def _select_patterns(body, var):
+    """every array read / unary UF application whose argument mentions the bound variable, as alternative patterns"""
+    pats, seen, stack = [], set(), [body]
+    def mentions(t):
+        st2, vis = [t], set()
+        while st2:
+            u = st2.pop()
+            if u.get_id() in vis:
+                continue
+            vis.add(u.get_id())
+            if z3.eq(u, var):
+                return True
+            st2.extend(u.children())
+        return False
+    while stack:
+        t = stack.pop()
+        if t.get_id() in seen:
+            continue
+        seen.add(t.get_id())
+        if z3.is_select(t) and mentions(t.arg(1)) and not mentions(t.arg(0)) and "if(" not in t.arg(1).sexpr().replace(" ", "").replace("ite", "if("):
+            if not any(z3.eq(t, p) for p in pats):
+                pats.append(t)
+            continue
+        if z3.is_quantifier(t):
+            continue
+        stack.extend(t.children())
+    return pats
 
 
 def _as_load(node):
